@@ -1,5 +1,6 @@
 import DirectVerif.Driver.Common
 import DirectVerif.Model.SslSplit
+import DirectVerif.Model.SslHistory
 /-!
 Line-protocol interpreter of the C11 model.
 
@@ -16,6 +17,10 @@ Line-protocol interpreter of the C11 model.
 must equal the count of the model's float32 product (`countCeilF32` / `countFloorF32`), else `err CountOutsideRatio`.
   f32count S p q -> ok ceil floor ratioCeil ratioFloor
   mshape  | sampling-mask shape | collated k-space shape -> ok split-mask shape | broadcasts aligned
+  hist    <as fwd; the B samples are the successive calls on ONE splitter object>  -> as fwd   (`runHist`, no memo)
+  seedx   salt | filename code points | slice code points -> ok seed | tuple   (seed derivation in a process with that hash salt)
+  eng_in  | joint train isSsl hasMask -> ok k m   (1/3 = input_kspace / input_sampling_mask, 2/4 = masked_kspace / sampling_mask, 0 = no mask)
+  ctor    | p q p q …                                      -> ok 1 / err ValueError (every ratio p/q must be in (0, 1))
 -/
 namespace DirectVerif.Driver.C11
 open DirectVerif DirectVerif.Driver DirectVerif.SslSplit
@@ -150,8 +155,37 @@ def opFwd (hdr : List Int) (rest : List (List Int)) : String :=
     | .ok gs => okG gs.flatten
   | _ => "err BadOp"
 
+/-- a history of calls on one splitter object: the model object keeps nothing between calls (`memo = none`) -/
+def opHist (hdr : List Int) (rest : List (List Int)) : String :=
+  match hdr with
+  | [kind, B, C, nrow, ncol, keep, a0, a1, dir, useSeed] =>
+    if rest.length ≠ (9 * B).toNat then "err BadOp" else
+    let outs := runHist (κ := Unit) none 0 (fwdSample kind nrow ncol keep a0 a1 dir useSeed C) [] (chunksOf 9 rest)
+    match outs.mapM id with
+    | .error e => e
+    | .ok gs => okG gs.flatten
+  | _ => "err BadOp"
+
+def ratioPairsOk : List Int → Option Bool
+  | [] => some true
+  | [_] => none
+  | p :: q :: rest => if q ≤ 0 then none else (ratioPairsOk rest).map (fun b => ratioValid p q && b)
+
 def step (op : String) (gs : List (List Int)) : String :=
   match op, gs with
+  | "hist", hdr :: rest => opHist hdr rest
+  | "seedx", [[salt], filename, slice] =>
+    if filename.isEmpty && slice.isEmpty || salt < 0 then "err ValueError" else
+    let t := seedOfCode { salt := salt.toNat } (nats filename) (nats slice)
+    okG [[gaussianSeed t], t.map Int.ofNat]
+  | "eng_in", [_, [joint, train, isSsl, hasMask]] =>
+    let u := engineUsesSplit (joint != 0) (train != 0) (isSsl != 0)
+    okG [[if u then 1 else 2, if hasMask != 0 then (if u then 3 else 4) else 0]]
+  | "ctor", [_, rs] =>
+    match ratioPairsOk rs with
+    | none => "err BadOp"
+    | some true => if rs.isEmpty then "err BadOp" else okG [[1]]
+    | some false => "err ValueError"
   | "gsplit", [hdr, mask, acs, xs, ys] => opGSplit hdr mask acs xs ys
   | "usplit", [hdr, mask, acs, chosen] => opUSplit hdr mask acs chosen
   | "hsplit", [hdr, mask, acs, xs, ys] => opHSplit hdr mask acs xs ys
